@@ -29,8 +29,6 @@ CLAIMS = {
              text="complete over the identity field and the subtype/emergency fields in every carrier", ref="3 C09", note=E1_NOTE),
  "C10": dict(cat="exploration", tech="exhaustive bounded enumeration of the payload lattice (every value of every field, bit-walk, boundary pairs, contexts) per TC/subtype/BDS leaf under DF17/18/20/21 on the real decoder vs DO-260B field tables",
              text="every interpreted payload field complete over its domain (<=13 bits quick, <=17 bits thorough) under the context alphabet; dispatch by TC/subtype checked on every case", ref="3 C10", note=E1_NOTE),
-}
-
  "C11": dict(cat="exploration", tech="exhaustive enumeration of the renderer's branch space through the E1 lattice (every leaf, every field value, every enum word) on the real Display impl vs reference templates filled from the decoded values",
              text="every renderer branch condition driven to both sides and every enum word enumerated; rendering compared line by line with an independent template instantiated from the frame's own decoded values; reference validated on the 44 pinned strings of the repository", ref="3 C11", note=E1_NOTE + "; templates without a pinned string are golden from the pinned tree"),
 }
